@@ -138,11 +138,11 @@ def run(chk, only=None):
         elif dm in (2, 3):
             if amb_nodes:
                 n, lo, hi = amb_nodes[0]
-                bad.append((p, dm, "ambiguity-node-left-in-mode-%s" % MODES[dm], (NAME[n[1]], " ".join(p.toks[lo - 1:hi]))))
+                bad.append((p, dm, "ambiguity-node-left-in-mode-%s" % MODES[dm], (NAME[n[1]], (" ".join(p.toks[lo - 1:hi]) if lo else "(no token span)"))))
         else:
             if len(amb_nodes) > len(diags):
                 n, lo, hi = amb_nodes[0]
-                bad.append((p, dm, "ambiguity-left-silently", (NAME[n[1]], " ".join(p.toks[lo - 1:hi]), diags)))
+                bad.append((p, dm, "ambiguity-left-silently", (NAME[n[1]], (" ".join(p.toks[lo - 1:hi]) if lo else "(no token span)"), diags)))
         if dm in (1, 2):
             for form, first, last, name, want in p.sites:
                 if dm == 2:
